@@ -989,7 +989,64 @@ func (k *core) checkExitOnFreshScan(rule string) {
 				}
 			}
 			walk(ec.Cond, 0)
-			c.check(fresh && !stale, rule, relName(m)+"#exit#"+itoa(n), r.Pos(), "the exit decision comes from a scan of the watching bits made for this event",
+			// the scan is complete: in the callee, the loop that reads the watching bits is left early only by
+			// returning "someone is still watching" (true); a break in that loop would skip the later slots
+			if fresh {
+				for _, ci := range allInstrs(m) {
+					call, ok := ci.(*ssa.Call)
+					if !ok {
+						continue
+					}
+					callee := staticCallee(call)
+					if callee == nil || !readsWatching(callee) {
+						continue
+					}
+					for _, h := range loopHeaders(callee) {
+						reads := false
+						for _, b := range callee.Blocks {
+							if b != h && !inLoopBody(h, b) {
+								continue
+							}
+							for _, bi := range b.Instrs {
+								if fl, ok := bi.(*ssa.Field); ok && sameField(fieldVar(fl.X.Type(), fl.Field), fWatching) {
+									reads = true
+								}
+								if fa, ok := bi.(*ssa.FieldAddr); ok && sameField(fieldVar(fa.X.Type(), fa.Field), fWatching) {
+									for _, rr := range *fa.Referrers() {
+										if u, ok := rr.(*ssa.UnOp); ok && u.Op == token.MUL {
+											reads = true
+										}
+									}
+								}
+							}
+						}
+						if !reads {
+							continue
+						}
+						for _, b := range callee.Blocks {
+							if b == h || !inLoopBody(h, b) {
+								continue
+							}
+							for _, sc := range b.Succs {
+								if sc == h || inLoopBody(h, sc) {
+									continue
+								}
+								// leaving the loop from its body: only `return true`
+								okExit := false
+								if ret, ok := sc.Instrs[len(sc.Instrs)-1].(*ssa.Return); ok && len(sc.Succs) == 0 && len(ret.Results) == 1 {
+									if cst, ok := ret.Results[0].(*ssa.Const); ok && cst.Value != nil && cst.Value.ExactString() == "true" {
+										okExit = true
+									}
+								}
+								if !okExit {
+									fresh = false
+								}
+							}
+						}
+					}
+				}
+			}
+			c.check(fresh && !stale, rule, relName(m)+"#exit#"+itoa(n), r.Pos(), "the exit decision comes from a complete scan of the watching bits made for this event",
 				"the monitor's exit on a Done event depends on state carried across events (or on nothing that reads the slots' watching bits): a source calling Done twice can make it exit while another source is still watching, whose later reports are never stacked")
 		}
 	}
